@@ -49,6 +49,16 @@ def build_catalog(seed, thorough):
     return ents
 
 
+def build_catalog_single(seed):
+    """the single-precision part of the catalogue only (float32 / complex64), for the default-precision worker: built identically in
+    a process with and without jax_enable_x64 (the arguments are numpy float32 / complex64 arrays before they reach jax)"""
+    import cache_catalog as cc
+
+    rng = np.random.Generator(np.random.PCG64([int(seed), 3232]))
+    dts = [np.float32, np.complex64]
+    return cc.functional_entries(rng, dts) + cc.loss_entries(rng, dts) + cc.operator_entries(rng, dts, heavy=True)
+
+
 def encode(canon):
     return [[str(a.dtype), list(a.shape), np.ascontiguousarray(a).tobytes().hex()] for a in canon]
 
